@@ -1,6 +1,7 @@
 import PermutaModel.Lemmas.C18AddPoint
 import PermutaModel.Lemmas.C18Bridge
 import PermutaModel.Lemmas.C18Plot
+import PermutaModel.Lemmas.C18PlotK
 import PermutaModel.Lemmas.C18Adj
 
 /-!
@@ -382,13 +383,19 @@ theorem can_shade_preserves_containsMesh (μ : Mesh) (hμ : ValidMesh μ) (pos :
 
 /-! ## rendering -/
 
-/-- **the text rendering can be parsed back**: for every valid mesh pattern, `ascii_plot()` (cell size
-    1, as a character list) succeeds and `parsePlotL` recovers the underlying permutation and exactly
-    the set of shaded cells -/
-theorem plot_round_trip (m : Mesh) (hm : ValidMesh m) :
-    ∃ s, asciiPlotL m 1 = .ok s ∧ (parsePlotL s 1).pattern = m.pattern ∧
-      ∀ c, c ∈ (parsePlotL s 1).shading ↔ c ∈ m.shading :=
-  parsePlotL_asciiPlotL m hm
+/-- **the text rendering can be parsed back, for every cell size**: for every valid mesh pattern and
+    every cell size `k ≥ 1`, `ascii_plot(k)` (as a character list) succeeds and `parsePlotL · k`
+    recovers the underlying permutation and exactly the set of shaded cells -/
+theorem plot_round_trip (m : Mesh) (hm : ValidMesh m) (k : Nat) (hk : 1 ≤ k) :
+    ∃ s, asciiPlotL m k = .ok s ∧ (parsePlotL s k).pattern = m.pattern ∧
+      ∀ c, c ∈ (parsePlotL s k).shading ↔ c ∈ m.shading := by
+  obtain ⟨c, rfl⟩ : ∃ c, k = c + 1 := ⟨k - 1, by omega⟩
+  exact parsePlotL_asciiPlotL_K m hm c
+
+/-- non-vacuity: a cell-size-2 rendering and its parse -/
+example : (asciiPlotL ⟨[0], [(1, 0)]⟩ 2).toOption.map String.ofList =
+    some "  |\n  |\n--●--\n  |▒▒\n  |▒▒" := by decide
+example : parsePlotL "  |\n  |\n--●--\n  |▒▒\n  |▒▒".toList 2 = ⟨[0], [(1, 0)]⟩ := by decide
 
 /-- `ascii_plot(cell_size)` asserts `cell_size >= 1` -/
 theorem plot_cell_size_zero (m : Mesh) : asciiPlotL m 0 = .error .assertion := by
